@@ -446,6 +446,18 @@ def main(out_path: str):
         lits = [n.value for n in ast.walk(tree) if isinstance(n, ast.Constant) and isinstance(n.value, str) and "entities=" in n.value]
         return lits[0] if len(lits) == 1 else ""
     parts.append(str_c("entitiesNsLiteral", _entities_literal(), "the string literal Survey.get_nsmap appends to the namespaces setting (from the function's AST)"))
+    # C05: parameter vocabularies the bind slice used to carry as hand-written lists
+    from pyxform.validators.pyxform import parameters_generic as _pg
+    parts.append(list_s("audioQualityValues", [C.AUDIO_QUALITY_VOICE_ONLY, C.AUDIO_QUALITY_LOW, C.AUDIO_QUALITY_NORMAL, C.AUDIO_QUALITY_EXTERNAL], "constants.AUDIO_QUALITY_{VOICE_ONLY,LOW,NORMAL,EXTERNAL}"))
+    parts.append(list_s("caseSensitiveParamValues", _pg.CASE_SENSITIVE_VALUES, "parameters_generic.CASE_SENSITIVE_VALUES"))
+    parts.append(list_s("auditParamNames", [C.LOCATION_PRIORITY, C.LOCATION_MIN_INTERVAL, C.LOCATION_MAX_AGE, C.TRACK_CHANGES, C.IDENTIFY_USER, C.TRACK_CHANGES_REASONS], "constants.LOCATION_PRIORITY, LOCATION_MIN_INTERVAL, LOCATION_MAX_AGE, TRACK_CHANGES, IDENTIFY_USER, TRACK_CHANGES_REASONS"))
+    _rd = None
+    for _n in ast.walk(ast.parse(inspect.getsource(x2j.process_range_question_type))):
+        if isinstance(_n, ast.Assign) and len(_n.targets) == 1 and getattr(_n.targets[0], "id", None) == "defaults":
+            _rd = ast.literal_eval(_n.value)
+    if not isinstance(_rd, dict):
+        raise SystemExit("translator: cannot read the range defaults of process_range_question_type")
+    parts.append(dict_ss("rangeDefaults", _rd, "xls2json.process_range_question_type: defaults"))
     parts.append("end Pyxv.Gen\n")
     # several slices may ask for the same table: keep the first definition of each name
     seen, uniq = set(), []
